@@ -152,7 +152,8 @@ def create_single_mode_squeezing_matrix(
     matrix = connector.accumulator(dtype=complex_dtype, size=cutoff)
 
     matrix = connector.write_to_accumulator(matrix, 0, first_row)
-    matrix = connector.write_to_accumulator(matrix, 1, second_row)
+    if cutoff > 1:
+        matrix = connector.write_to_accumulator(matrix, 1, second_row)
 
     previous_previous = first_row
     previous = second_row
